@@ -2,6 +2,11 @@ NOTES = ("All checks: ./check <ID> --tier quick|thorough, VERIF_SEED respected, 
          "fix: commits in /repo are listed in known_findings.json as fixed entries.")
 NOT_APPLICABLE = {}
 CHECKS = {
+ "C14": {
+  "technique": "Hypothesis property-based testing of generated multi-site programs with scripted interleavings against an independent per-site aggregation; per-site disjoint value ranges make leakage visible",
+  "text": "3-12 sites in 7 placement styles (incl. two calls on one line, lambdas on one line, helpers, comprehensions, module-level names shared by tests, two files) are evaluated in a generated interleaving; after create and after a second fix+trim session every site must hold exactly the aggregation of its own observations and nothing outside its value range. A second arm changes the hand-written argument between evaluations and demands UsageError; a third runs parametrized and shared-site tests in real pytest sessions. Exploration.",
+  "note": "id(code) reuse after garbage collection cannot be forced from a test program and is not covered",
+ },
  "C17": {
   "technique": "Hypothesis property-based testing of mutation schedules against an aliasing-free model (the harness replays the schedule on its own objects and deep-copies at comparison time)",
   "text": "Generated schedules interleave comparisons on 1-3 sites with mutations (append, clear, item/attribute assignment, nested) of 1-3 shared mutable variables; the values in the rewritten file after create, and after a second fix+trim session on a changed schedule, must equal the aggregation of the harness-recorded copies; values whose deep copy differs (identity eq, lossy __deepcopy__, also nested) must raise UsageError and leave the site unwritten. Exploration.",
